@@ -18,7 +18,8 @@ CLAIMS = {
                  "with arbitrary advertised kind sets (symbolic masks over kind ids 1..8, or no set) is exactly the intersection (set-less children skipped) / the union (a set-less child "
                  "makes the result None) of the children's sets, so the node-kind dispatch of FindAllNodes / CombinedScan can never drop a node that every (some) child would accept. "
                  "(b) The literal-substring file prefilter (core half): for every single-token pattern (symbolic kind incl. ERROR, named bit, text) at every strictness level and every candidate leaf, "
-                 "Pattern::match_node_with_env(X) is Some ==> X.text() contains Pattern::fixed_string(), i.e. the string the CLI requires a file to contain is never one the match does not need."),
+                 "Pattern::match_node_with_env(X) is Some ==> X.text() contains Pattern::fixed_string(), i.e. the string the CLI requires a file to contain is never one the match does not need; "
+                 "for nested patterns fixed_string() is the longest token whose text the strictness level compares (named tokens only under ast/relaxed, none under signature)."),
         "note": ("NOT covered (engine limits, DESIGN 3; harnesses kept in the lab tier): FindAllNodes / overlap-free Visitor / replace_all drivers themselves (ANY(4): > 40 min of symbolic "
                  "execution), Pattern / Rule / ReferentRule / NthChild potential_kinds, CombinedScan's dispatch table, registration order of utils, prefilter soundness for patterns with "
                  "children (needs the sibling alignment; c01_prefilter_internal_k*: lab), and everything in the cli crate (`sg run/scan` wiring, the `contains` test of filter_file_pattern itself). "
@@ -34,10 +35,12 @@ CLAIMS = {
     },
     "C03": {
         "text": ("The solver shows (a) the per-node decision of every strictness level equals the decision table of the documentation for every goal/candidate label pair, "
-                 "(b) are_kinds_matching over all u16 pairs, (c) which leftover goals may stay unmatched."),
+                 "(b) are_kinds_matching over all u16 pairs, (c) which leftover goals may stay unmatched, (d) through the real Pattern entry points for one-node patterns: a non-capturing hole "
+                 "marked named ($_) matches only named nodes and an any-node hole ($$_) any node, binding nothing; Pattern::get_match_len accepts exactly what match_node_with_env accepts "
+                 "for one-token patterns and reports the token's own length."),
         "note": ("NOT covered (engine limits, DESIGN 3): the sibling alignment itself (match_nodes_impl_recursive, match_single_node_while_skip_trivial, ellipsis handling): the harnesses "
                  "(c03_env_*, c03_len_*, c03_tt_*, c03_sep_*, c03_lay_*; oracle validated natively on 184 320 cases) run out of 24 GB / 30 min even for two terminal goals against "
-                 "two candidates at one concrete strictness, and are kept in the lab tier. Both seeded changes for C03 are in that loop and are missed. Labels: 5 kinds + ERROR, 1-byte texts."),
+                 "two candidates at one concrete strictness, and are kept in the lab tier. Two of the four seeded changes for C03 are in that loop and are missed. Capturing holes ($A) are lab tier (spurious engine failures on the MetaVarEnv write). Labels: 5 kinds + ERROR, 1-2-byte texts."),
     },
     "C04": {
         "text": ("For the composite matchers All/Any over stub children that may write a binding and then fail, with a symbolic pre-existing environment, the solver shows "
